@@ -434,14 +434,15 @@ theorem inDom_heads : ∀ (D : Doms) (ds : List VarDecl), SubD D (ds.map fun d =
 
 /-! ### the search -/
 
-theorem backtrack_sound {M : Model} (limit : Nat) :
+theorem backtrack_sound {M : Model} {sel : Doms → Option Nat} {ord : Doms → Nat → List Int} (hord : OrdOK ord)
+    (limit : Nat) :
     ∀ (fuel : Nat) (D : Doms) (st : DfsState),
       SubD D (M.vars.map fun d => irange d.lb d.ub) → D.any List.isEmpty = false →
       (∀ a ∈ st.sols, IsSolution M a) →
-      ∀ a ∈ (backtrack true M.cons limit fuel D st).sols, IsSolution M a
-  | 0, _, st, _, _, hst => by simpa [backtrack] using hst
+      ∀ a ∈ (backtrackG sel ord true M.cons limit fuel D st).sols, IsSolution M a
+  | 0, _, st, _, _, hst => by simpa [backtrackG] using hst
   | fuel + 1, D, st, hD, hne, hst => by
-    unfold backtrack
+    unfold backtrackG
     split
     · -- leaf
       simp only
@@ -462,8 +463,9 @@ theorem backtrack_sound {M : Model} (limit : Nat) :
           · exact hst a h
           · rw [List.mem_singleton.1 h]; exact hsol
     · next v _ =>
-      apply foldl_inv (P := fun s : DfsState => ∀ a ∈ s.sols, IsSolution M a) (dget D v) st hst
-      intro s x hx hs
+      apply foldl_inv (P := fun s : DfsState => ∀ a ∈ s.sols, IsSolution M a) (ord D v) st hst
+      intro s x hx' hs
+      have hx : x ∈ dget D v := (hord D v x).1 hx'
       split
       · exact hs
       · split
@@ -481,7 +483,7 @@ theorem backtrack_sound {M : Model} (limit : Nat) :
                 rw [hne] at this; cases this
               · subst hd'; simp at he
           have := propagate_sub _ _ hsub hne' hp
-          exact backtrack_sound limit fuel D' s this.1 this.2 hs
+          exact backtrack_sound hord limit fuel D' s this.1 this.2 hs
 
 theorem initDoms_sub (vars : List VarDecl) (hne : ∀ d ∈ vars, d.lb ≤ d.ub) (hints : List (Nat × Int)) :
     SubD (initDoms vars hints) (vars.map fun d => irange d.lb d.ub) ∧
